@@ -218,7 +218,7 @@ HEADER = '''(* GENERATED by harness/extract.py from /repo on every run. Do not e
 From Coq Require Import ZArith QArith List String.
 Import ListNotations.
 Close Scope Q_scope.
-From Eudoxia Require Import Model.Types Model.Lifecycle Model.Shapes.
+From Eudoxia Require Import Model.Types Model.Lifecycle Model.Shapes Model.Timing.
 Inductive ext_fail := ExtractionFailed (why : string).
 '''
 
